@@ -34,8 +34,31 @@ def public_roots(P):
         inst = P.instances[key]
         f = P.fn_facts.get(inst.path)
         if f and f.get('reachable') and inst.has_body:
+            if f.get('impl_trait') == 'core::fmt::Debug':
+                continue        # Debug formatting is not part of any property
             out.append(key)
     return out
+
+
+_CUT = {}
+
+
+def cut_set_for(P):
+    """safe public functions: analysed as roots of their own, cut when called from other roots"""
+    k = id(P)
+    if k not in _CUT:
+        def substantial(inst):
+            # trivial accessors (straight-line code without crate-local calls) are inlined instead
+            if inst.natural_loops():
+                return True
+            for b, t in inst.calls():
+                c = t['callee']
+                if c.get('krate') == 'memchr' or 'indirect' in c:
+                    return True
+            return False
+        _CUT[k] = frozenset(r for r in public_roots(P) if not P.instances[r].is_unsafe_fn
+                            and P.instances[r].j.get('def_kind') in ('Fn', 'AssocFn') and substantial(P.instances[r]))
+    return _CUT[k]
 
 
 def run_one(job):
@@ -47,7 +70,7 @@ def run_one(job):
     try:
         variants = contracts.variants_for(P, inst)
         for vname, contract, post in variants:
-            r = e2run.run_root(P, key, contract, time_budget=budget)
+            r = e2run.run_root(P, key, contract, time_budget=budget, cut_set=cut_set_for(P) - {key})
             I = r['interp']
             if r['error']:
                 rec['error'] = f"[{vname}] {r['error']}"
@@ -59,6 +82,7 @@ def run_one(job):
                                    'detail': o.detail if not o.ok else o.detail[:160], 'variant': vname,
                                    'macros': [m for m in (o.macros or []) if 'assert' in m or 'unreachable' in m][:2]})
             rec['notes'] += [n for n in I.notes if n not in rec['notes']]
+            rec.setdefault('cuts', {}).update(I.cuts)
             rec['variants'].append({'name': vname, 'time': round(r['time'], 2), 'outcomes': r.get('outcomes'), 'stats': I.stats,
                                     'loops': [list(x) for x in I.loop_invs]})
     except Exception as e:
